@@ -15,7 +15,7 @@ def cify(f, fn, qualname, cname, renames=(), loop_contracts=None, ptypes=None, e
     params = d['params']
     body = d['body']
     text = '%s %s(%s)\n%s' % (ret, cname, params, body)
-    rules = [(r'Goldilocks::Element', 'GElement'), (r'std::', ''), (r'\bmemcpy\(', 'vf_memcpy('), (r'\bmemset\(', 'vf_memset('),
+    rules = [(r'Goldilocks::Element', 'GElement'), (r'std\s*::\s*', ''), (r'\bmemcpy\(', 'vf_memcpy('), (r'\bmemset\(', 'vf_memset('),
              (r'\(GElement\s*\(&\)\s*\[\w+\]\)\s*', '&'), (r'^\s*#pragma omp[^\n]*', lambda m: '/* %s */' % m.group(0).strip())]
     for pat, rep in list(rules) + list(extra_rules):
         text = re.sub(pat, rep, text, flags=re.M)
